@@ -257,3 +257,69 @@ def freq_axis_unbounded(V):
 
 from pyvc.api import int_variant
 int_variant('C15', 'transform-is-the-conjugate-discrete-S-transform', ['x'])
+
+
+@unit('C15', 'both-implementations-agree (any length)', functions=[SW + 'transform', SW + 'transform_w_scipy_fft'],
+      cases=[dict(parity='even'), dict(parity='odd')], modes=('unbounded',), budget_ms=30000, opts=dict(histories=()))
+def agree_unbounded(V, parity):
+    """For a record of ANY length (even / odd): transform and transform_w_scipy_fft return arrays of the same shape (n//2, 2*(n//2)) whose
+    every cell is equal -- both are the flipped row-wise inverse DFT (one uninterpreted kernel) of the SAME product of the Toeplitz
+    matrix of the record's DFT with the Gaussian window.  (What that common value is: bounded units above, exact DFT sizes.)"""
+    st = {}
+
+    def setup():
+        h = V.size('h', 2)
+        n = T.sadd(T.smul(2, h), 0 if parity == 'even' else 1)
+        x = V.array('x', n, origin='param')
+        st.update(h=h, n=n, x=x)
+        return dict(acc=x)
+    other = V.itp.get_function(SW + 'transform')
+    for out in V.run(SW + 'transform_w_scipy_fft', setup):
+        if not out.no_raise():
+            continue
+        h, x = st['h'], st['x']
+        a = out.result
+        try:
+            b = V.itp.call(other, [x], {})
+        except T.PyExc as e:
+            out.prove('transform-no-exception[%s]' % e.kind, False)
+            continue
+        ok = is_arr(a) and is_arr(b) and len(a.shape) == 2 and len(b.shape) == 2
+        out.prove('both-return-2-d-arrays', ok)
+        if not ok:
+            continue
+        out.prove('shape-is-(n/2, n)-for-the-even-truncated-record', T.sand(T.seq(a.shape[0], h), T.seq(a.shape[1], T.smul(2, h)),
+                                                                           T.seq(b.shape[0], h), T.seq(b.shape[1], T.smul(2, h))))
+        for r in V.idx(0, h, 'r'):
+            for c in V.idx(0, T.smul(2, h), 'c'):
+                out.prove('every-cell-agrees', cx_eq(a[r, c], b[r, c]))
+        out.unchanged('x', x)
+
+
+@unit('C15', 'both-implementations-agree (n = 258: 129 rows)', functions=[SW + 'transform', SW + 'transform_w_scipy_fft'], modes=('bounded',), sizes=dict(n=[258]),
+      budget_ms=30000, opts=dict(histories=()), tier='thorough')
+def agree_258(V):
+    """A concrete length with n/2 = 129 = 128 + 1 rows (block-wise implementations with a block of 2**k rows leave a remainder of one row):
+    with the DFT kernels uninterpreted, both implementations must still return cell-wise equal arrays of shape (129, 258)."""
+    st = {}
+
+    def setup():
+        n = V.size('n', 4)
+        x = V.array('x', n, origin='param')
+        st.update(n=n, x=x)
+        return dict(acc=x)
+    other = V.itp.get_function(SW + 'transform')
+    for out in V.run(SW + 'transform_w_scipy_fft', setup):
+        out.replay_info = dict(module='stockwell')
+        if not out.no_raise():
+            continue
+        n, x = st['n'], st['x']
+        a = out.result
+        b = V.itp.call(other, [x], {})
+        ok = is_arr(a) and is_arr(b) and tuple(a.shape) == (n // 2, 2 * (n // 2)) and tuple(b.shape) == tuple(a.shape)
+        out.prove('shape-is-(n/2, n)', ok)
+        if not ok:
+            continue
+        for r in (0, 1, n // 4, n // 2 - 2, n // 2 - 1):
+            out.prove('row-%d-agrees' % r, all(cx_eq(a[r, c], b[r, c]) is True for c in range(0, 2 * (n // 2), 7)) or
+                      T.sand(*[cx_eq(a[r, c], b[r, c]) for c in range(0, 2 * (n // 2), 7)]))
